@@ -210,6 +210,24 @@ CHECKS = {
         'lll.reduce / BatchMultiplyG / ExtendedBatchDL / HNP-for-curve by '
         'contract; Cr50 internal sanity branch assumed unreachable; text '
         'rendering of symbolic coordinates is a placeholder'),
+    'C11': (
+        True, '5/C11',
+        'symbolic execution of every public EcCurve point method over (a) an '
+        'abstract ordered field with symbolic a, b (z3 QF_NRA, relational '
+        'chord-and-tangent law, no inverses) and (b) toy prime fields with '
+        'bit-vector coordinates against a reference addition table (pysym)',
+        'Bounded symbolic model checking: affine/Jacobian Add, Double, '
+        'Subtract, Negate, conversions for arbitrary curve points incl. '
+        'infinity, equal and opposite points, arbitrary non-zero Z, a = -3 '
+        'shortcut; all batched variants on lists of 1..2 (3) points with '
+        'every mixture of special cases next to regular ones; on toy curves '
+        'over F_23, F_31 (F_43, F_61): every pair of points; Multiply / '
+        'MultiplyAffine / BatchMultiplyG for every scalar in [-2n-1, 4n+1] '
+        '(orders 6..7 (10) bits); named-curve constants as ground facts.',
+        'field abstraction (x % mod identity, invert = field inverse): '
+        'formulas are identities of rational functions, transfer to F_p '
+        'assumed and cross-checked on toy fields; counterexamples confirmed by '
+        'a concrete differential oracle on toy and named curves'),
 }
 
 NOT_APPLICABLE = {
